@@ -234,3 +234,10 @@ pub uninterp spec fn spec_json_ok<T>(t: T) -> bool;
 pub fn to_json_binary<T: Serialize>(msg: &T) -> (r: StdResult<Binary>)
     ensures (r is Ok) == spec_json_ok(*msg), r is Ok ==> r.unwrap() == spec_json(*msg)
 { unimplemented!() }
+
+pub uninterp spec fn spec_err_text(e: AnyError) -> String;
+#[verifier::external_body]
+pub fn fmt_debug_err(e: &AnyError) -> (r: String) ensures r == spec_err_text(*e) { String::new() }
+
+#[verifier::external_body]
+pub fn fmt_wasm_prefix(ty: &String) -> (r: String) ensures r@ == "wasm-"@ + ty@ { String::new() }
